@@ -34,7 +34,7 @@ func genSites(repo, out string) {
 	pkgs := []string{"", "spec", "fclient", "tokens"}
 	// type-checking takes several seconds: skip it when no source file of these packages changed
 	h := sha256.New()
-	h.Write([]byte("site kinds v2: index slice assert panic fieldcall deref mapwrite\n"))
+	h.Write([]byte("site kinds v3 (m[k]++): index slice assert panic fieldcall deref mapwrite\n"))
 	for _, sub := range pkgs {
 		ents, _ := os.ReadDir(filepath.Join(repo, sub))
 		for _, e := range ents {
@@ -225,6 +225,15 @@ func collect(fset *token.FileSet, info *types.Info, f *ast.File, fname string, c
 							if _, isMap := tv.Type.Underlying().(*types.Map); isMap {
 								add("mapwrite", ix)
 							}
+						}
+					}
+				}
+			case *ast.IncDecStmt:
+				// m[k]++ / m[k]-- write into the map too
+				if ix, ok := x.X.(*ast.IndexExpr); ok {
+					if tv, ok := info.Types[ix.X]; ok && tv.Type != nil {
+						if _, isMap := tv.Type.Underlying().(*types.Map); isMap {
+							add("mapwrite", ix)
 						}
 					}
 				}
